@@ -166,15 +166,13 @@ Definition swap_input (v : vamm) (e : env) (sender : addr) (d : direction) (quot
   : res (vamm * (Z * Z)) :=
   check v_open (vs v) else EGuard;
   check (sender =? v_engine (vc v)) else EGuard;
-  do base <- if negb (quote =? 0) then
-               do base <- input_price (v_dec (vc v)) d quote (v_q (vs v)) (v_b (vs v));
-               if negb (limit =? 0) then
-                 match d with
-                 | AddToAmm => check negb (base <? limit) else EGuard; Ok base
-                 | RemoveFromAmm => check negb (limit <? base) else EGuard; Ok base
-                 end
-               else Ok base
-             else Ok 0;
+  do base <- input_price (v_dec (vc v)) d quote (v_q (vs v)) (v_b (vs v));
+  do _ <- (if negb (limit =? 0) then
+             match d with
+             | AddToAmm => check negb (base <? limit) else EGuard; Ok tt
+             | RemoveFromAmm => check negb (limit <? base) else EGuard; Ok tt
+             end
+           else Ok tt);
   do v' <- update_reserve v e d quote base can_go_over;
   Ok (v', (quote, base)).
 
@@ -183,15 +181,13 @@ Definition swap_output (v : vamm) (e : env) (sender : addr) (d : direction) (bas
   check v_open (vs v) else EGuard;
   check (sender =? v_engine (vc v)) else EGuard;
   let ud := flip d in
-  do quote <- if negb (base =? 0) then
-                do quote <- output_price (v_dec (vc v)) d base (v_q (vs v)) (v_b (vs v));
-                if negb (limit =? 0) then
-                  match ud with
-                  | RemoveFromAmm => check negb (quote <? limit) else EGuard; Ok quote
-                  | AddToAmm => check negb (limit <? quote) else EGuard; Ok quote
-                  end
-                else Ok quote
-              else Ok 0;
+  do quote <- output_price (v_dec (vc v)) d base (v_q (vs v)) (v_b (vs v));
+  do _ <- (if negb (limit =? 0) then
+             match ud with
+             | RemoveFromAmm => check negb (quote <? limit) else EGuard; Ok tt
+             | AddToAmm => check negb (limit <? quote) else EGuard; Ok tt
+             end
+           else Ok tt);
   do v' <- update_reserve v e ud quote base true;
   Ok (v', (quote, base)).
 
